@@ -61,6 +61,8 @@ struct ConcPlan
     uint32_t              stall_from{0}, stall_len{0};
     std::vector<int>      prio;
     std::vector<uint32_t> change_points;
+    std::vector<uint32_t> fine; // basic-block preemption counts (ascending)
+    std::vector<uint32_t> susp; // ordinals of "locked code running unlocked" executions to preempt at
     std::string           note; // e.g. the method pair of a matrix plan
 
     js::Value to_json() const
@@ -120,6 +122,20 @@ struct ConcPlan
                 c.push(js::Value::integer(x));
             s.set("change_points", std::move(c));
         }
+        if (!fine.empty())
+        {
+            auto f = js::Value::array();
+            for (auto x : fine)
+                f.push(js::Value::integer(x));
+            s.set("fine", std::move(f));
+        }
+        if (!susp.empty())
+        {
+            auto f = js::Value::array();
+            for (auto x : susp)
+                f.push(js::Value::integer(x));
+            s.set("susp", std::move(f));
+        }
         v.set("sched", std::move(s));
         return v;
     }
@@ -170,6 +186,8 @@ struct ConcPlan
         list.clear();
         prio.clear();
         change_points.clear();
+        fine.clear();
+        susp.clear();
         stall_client = -1;
         if (auto* s = v.get("sched"))
         {
@@ -190,6 +208,12 @@ struct ConcPlan
             if (auto* cp = s->get("change_points"))
                 for (auto& x : cp->a)
                     change_points.push_back((uint32_t)x.i);
+            if (auto* f = s->get("fine"))
+                for (auto& x : f->a)
+                    fine.push_back((uint32_t)x.i);
+            if (auto* f = s->get("susp"))
+                for (auto& x : f->a)
+                    susp.push_back((uint32_t)x.i);
         }
         normalize();
         return true;
@@ -257,7 +281,7 @@ struct ConcPlan
                     o.form = 0;
                 if (cfg.cont == Cont::tlru && o.kind == OpKind::insert_range && o.form == 2)
                     o.form = 0;
-                if (o.form < 0 || o.form > 4)
+                if (o.form < 0 || o.form > 6 || (o.form >= 5 && o.kind != OpKind::find_fill))
                     o.form = 0;
                 if (o.kind == OpKind::find_range && o.form == 2)
                     o.form = 0;
@@ -278,6 +302,10 @@ struct ConcPlan
         if (stall_client >= nclients)
             stall_client = -1;
         prio.resize((size_t)nclients, 0);
+        std::sort(fine.begin(), fine.end());
+        fine.erase(std::unique(fine.begin(), fine.end()), fine.end());
+        std::sort(susp.begin(), susp.end());
+        susp.erase(std::unique(susp.begin(), susp.end()), susp.end());
     }
 };
 
@@ -319,6 +347,7 @@ struct HOp
     uint32_t inv{0}, ret{0}, lock{0};
     bool     has_lock{false};
     bool     completed{false};
+    int      must_follow{-1}; // index of an op that has to be ordered before this one (split ranges)
     uint64_t key() const { return has_lock ? lock : inv; }
 };
 
@@ -447,7 +476,7 @@ struct LinCheck
         {
             if (done[i])
                 continue;
-            bool ok = true;
+            bool ok = h[i].must_follow < 0 || done[(size_t)h[i].must_follow];
             for (size_t j = 0; j < h.size() && ok; ++j)
                 if (!done[j] && j != i && h[j].ret < h[i].inv)
                     ok = false;
@@ -581,6 +610,10 @@ struct ConcRun
             spec.prio[c] = plan.prio[(size_t)c];
         spec.change_points = plan.change_points.data();
         spec.nchange       = plan.change_points.size();
+        spec.fine          = plan.fine.data();
+        spec.nfine         = plan.fine.size();
+        spec.susp          = plan.susp.data();
+        spec.nsusp         = plan.susp.size();
         spec.obj_lo        = box->obj_addr();
         spec.obj_hi        = (const char*)box->obj_addr() + box->obj_size();
         sched::begin_run(spec);
@@ -629,6 +662,10 @@ struct ConcRun
         out.st.bump("fault.preemption", sched::preemptions());
         out.st.bump("fault.stall_denied_baton", sched::stalls_fired());
         out.st.bump("fault.lock_found_held", sched::blocked_fired());
+        out.st.bump("fault.preempt_inside_unlocked_code", sched::fine_fired());
+        out.st.bump("probe.unlocked_basic_blocks", sched::fine_seen());
+        out.st.bump("fault.preempt_in_locked_code_running_unlocked", sched::susp_fired());
+        out.st.bump("probe.locked_code_running_unlocked", sched::susp_seen());
 
         std::map<std::tuple<int, int, int>, size_t> where; // (client, epoch, idx) -> hist index
         for (size_t e = 0; e < plan.epochs.size(); ++e)
@@ -706,7 +743,7 @@ struct ConcRun
         {
             for (size_t k = 0; k < nev; ++k)
             {
-                static const char* kn[] = {"?", "invoke", "return", "lock-request", "lock-acquired", "unlock", "now", "blocked", "epoch-done", "epoch-start"};
+                static const char* kn[] = {"?", "invoke", "return", "lock-request", "lock-acquired", "unlock", "now", "blocked", "epoch-done", "epoch-start", "basic-block"};
                 *trace += "  ev " + std::to_string(ev[k].seq) + " client " + std::to_string(ev[k].client) + " " + kn[ev[k].kind] +
                           " op " + std::to_string(ev[k].op) + " epoch " + std::to_string(ev[k].epoch) + "\n";
             }
@@ -775,6 +812,150 @@ struct ConcRun
         sched::clock_set(tend);
         Result final_conc = final_probe(*box, plan.cfg, tr);
         note(final_conc);
+
+        // ---- order-independent invariants on the histories and on the final state:
+        //      value provenance (C01) and truthful observers (C02)
+        if (!out.v.any() && !conc_is_tsan_build())
+        {
+            std::map<uint32_t, int> writer; // value id -> key it was written under (values are unique per write)
+            auto                    reg = [&](const Op& o) {
+                if (o.kind == OpKind::insert)
+                    writer[o.val] = o.key;
+                else if (o.kind == OpKind::insert_range)
+                    for (auto& it : o.items)
+                        writer[it.val] = it.key;
+            };
+            for (auto& o : plan.prefill)
+                reg(o);
+            for (auto& e : plan.epochs)
+                for (auto& c : e.clients)
+                    for (auto& o : c)
+                        reg(o);
+            auto foreign = [&](int key, int64_t hit, int64_t val) {
+                if (!hit || !tr.has_values)
+                    return false;
+                auto it = writer.find((uint32_t)val);
+                return it == writer.end() || it->second != key;
+            };
+            out.st.counters["eval.C01"]++;
+            out.st.counters["eval.C02"]++;
+            for (auto& o : hist)
+            {
+                if (!o.completed || out.v.any())
+                    continue;
+                const Result& r = o.res;
+                if ((o.op.kind == OpKind::find || o.op.kind == OpKind::find_uc) && r.size() >= 2 && foreign(o.op.key, r[0], r[1]))
+                    fail({"C01", "C06"}, "conc.foreign_value",
+                         "lookup of key " + std::to_string(o.op.key) + " by client " + std::to_string(o.client) + " returned value " +
+                             std::to_string(r[1]) + " which was never written under that key");
+                if (o.op.kind == OpKind::find_range || o.op.kind == OpKind::find_fill)
+                    for (size_t i = 0; i + 3 <= r.size(); i += 3)
+                        if (foreign((int)r[i], r[i + 1], r[i + 2]))
+                            fail({"C01", "C06"}, "conc.foreign_value",
+                                 "range lookup by client " + std::to_string(o.client) + " returned for key " + std::to_string(r[i]) +
+                                     " value " + std::to_string(r[i + 2]) + " which was never written under that key");
+                const int64_t nres = tr.has_capacity ? (int64_t)plan.cfg.capacity : (int64_t)plan.cfg.universe;
+                if (o.op.kind == OpKind::clean && !r.empty() && (r[0] < 0 || r[0] > nres))
+                    fail({"C17", "C06"}, "conc.clean_count_out_of_bounds",
+                         "clean_expired_values() returned " + std::to_string(r[0]) + " to client " + std::to_string(o.client) +
+                             " (at most " + std::to_string(nres) + " entries can be resident)");
+                if (o.op.kind == OpKind::age && !r.empty() && (r[0] < 0 || r[0] > nres))
+                    fail({"C14", "C06"}, "conc.aged_count_out_of_bounds",
+                         "dynamically_age() returned " + std::to_string(r[0]) + " to client " + std::to_string(o.client));
+                if ((o.op.kind == OpKind::insert_range || o.op.kind == OpKind::erase_range) && !r.empty() &&
+                    (r[0] < 0 || r[0] > (int64_t)effective_items(o.op).size()))
+                    fail({"C18", "C06"}, "conc.range_count_out_of_bounds",
+                         std::string(op_name(o.op.kind)) + " of " + std::to_string(effective_items(o.op).size()) + " elements returned " +
+                             std::to_string(r[0]));
+                if (o.op.kind == OpKind::size && tr.has_capacity && !r.empty() && (r[0] < 0 || r[0] > (int64_t)plan.cfg.capacity))
+                    fail({"C02", "C06"}, "conc.size_out_of_bounds",
+                         "size() returned " + std::to_string(r[0]) + " to client " + std::to_string(o.client) + " (capacity " +
+                             std::to_string(plan.cfg.capacity) + ")");
+                if (o.op.kind == OpKind::capacity && !r.empty() && r[0] != (int64_t)plan.cfg.capacity)
+                    fail({"C02", "C06"}, "conc.capacity_changed",
+                         "capacity() returned " + std::to_string(r[0]) + " to client " + std::to_string(o.client));
+            }
+            if (!out.v.any())
+            {
+                // final state, read single threaded after every client has finished
+                size_t  n     = final_conc.size();
+                int64_t fsize = final_conc[n - 2], fempty = final_conc[n - 1], found = 0;
+                for (int k = 0; k < (int)plan.cfg.universe; ++k)
+                {
+                    found += final_conc[(size_t)k * 3];
+                    if (foreign(k, final_conc[(size_t)k * 3], final_conc[(size_t)k * 3 + 1]))
+                        fail({"C01", "C06"}, "conc.foreign_value_final",
+                             "after the run key " + std::to_string(k) + " holds value " + std::to_string(final_conc[(size_t)k * 3 + 1]) +
+                                 " which was never written under that key");
+                }
+                if (tr.has_capacity && (fsize < 0 || fsize > (int64_t)plan.cfg.capacity))
+                    fail({"C02", "C06"}, "conc.final_size_out_of_bounds",
+                         "after the run size()=" + std::to_string(fsize) + " with capacity " + std::to_string(plan.cfg.capacity));
+                else if (fempty != (fsize == 0))
+                    fail({"C02", "C06"}, "conc.final_empty", "after the run empty() disagrees with size()=" + std::to_string(fsize));
+                else if (tr.ttl == TtlMode::none ? fsize != found : fsize < found)
+                    fail({"C02", "C06"}, "conc.final_size_ne_found",
+                         "after the run size()=" + std::to_string(fsize) + " but " + std::to_string(found) + " keys are found");
+                // use counts can only come from uses: count(k) <= successful writes of k + successful non-peek lookups of k
+                if (tr.has_uc && !out.v.any())
+                {
+                    out.st.counters["eval.C11"]++;
+                    std::map<int, int64_t> uses;
+                    for (auto& o : hist)
+                    {
+                        if (!o.completed)
+                        {
+                            // a call that never returned may have had its effect
+                            for (auto& it : o.op.items)
+                                uses[it.key]++;
+                            uses[o.op.key]++;
+                            continue;
+                        }
+                        const Result& r = o.res;
+                        switch (o.op.kind)
+                        {
+                            case OpKind::insert:
+                                if (!r.empty() && r[0])
+                                    uses[o.op.key]++;
+                                break;
+                            case OpKind::insert_range:
+                                for (auto& it : o.op.items)
+                                    uses[it.key]++;
+                                break;
+                            case OpKind::find:
+                            case OpKind::find_uc:
+                                if (!o.op.peek && r.size() >= 2 && r[0])
+                                    uses[o.op.key]++;
+                                break;
+                            case OpKind::find_range:
+                            case OpKind::find_fill:
+                                if (!o.op.peek)
+                                    for (size_t i = 0; i + 3 <= r.size(); i += 3)
+                                        if (r[i + 1])
+                                            uses[(int)r[i]]++;
+                                break;
+                            default:
+                                break;
+                        }
+                    }
+                    for (int k = 0; k < (int)plan.cfg.universe && !out.v.any(); ++k)
+                        if (final_conc[(size_t)k * 3] && final_conc[(size_t)k * 3 + 2] > uses[k])
+                            fail({"C11", "C06"}, "conc.use_count_exceeds_uses",
+                                 "after the run key " + std::to_string(k) + " has use count " + std::to_string(final_conc[(size_t)k * 3 + 2]) +
+                                     " but only " + std::to_string(uses[k]) + " successful writes / non-peek lookups of it were made");
+                }
+                if (in_flight_switches)
+                {
+                    out.st.nontrivial.insert("C01");
+                    out.st.nontrivial.insert("C02");
+                    if (tr.has_uc)
+                        out.st.nontrivial.insert("C11");
+                    if (tr.has_clean)
+                        out.st.nontrivial.insert("C17");
+                    out.st.nontrivial.insert("C18");
+                }
+            }
+        }
         if (!out.v.any() && !conc_is_tsan_build())
         {
             LinCheck lc(plan, hist, final_conc);
@@ -788,8 +969,49 @@ struct ConcRun
                 else if (lc.exhausted)
                     out.st.bump("lin.search_budget_exhausted");
                 else
-                    fail({"C06"}, "lin.no_sequential_order",
-                         "no sequential order consistent with real time reproduces the results (" + lc.why + ")");
+                {
+                    // Diagnosis: is the history linearizable once every lookup range is taken apart into its
+                    // single lookups (in element order)?  Then the only thing wrong is that a range did not
+                    // take effect at one instant, which is C18's claim as well as C06's.
+                    std::vector<HOp> split;
+                    bool             any_split = false;
+                    for (auto& o : hist)
+                    {
+                        bool is_lr = (o.op.kind == OpKind::find_range || o.op.kind == OpKind::find_fill) && o.completed;
+                        auto items = is_lr ? effective_items(o.op) : std::vector<Item>();
+                        if (!is_lr || items.size() < 2 || o.res.size() != items.size() * 3)
+                        {
+                            split.push_back(o);
+                            continue;
+                        }
+                        any_split = true;
+                        for (size_t i = 0; i < items.size(); ++i)
+                        {
+                            HOp sgl         = o;
+                            sgl.op          = Op();
+                            sgl.op.kind     = OpKind::find;
+                            sgl.op.key      = items[i].key;
+                            sgl.op.peek     = o.op.peek;
+                            sgl.res         = {o.res[i * 3 + 1], o.res[i * 3 + 2]};
+                            sgl.must_follow = i ? (int)split.size() - 1 : -1;
+                            split.push_back(sgl);
+                        }
+                    }
+                    bool split_ok = false;
+                    if (any_split)
+                    {
+                        LinCheck lc2(plan, split, final_conc);
+                        lc2.budget = 100000;
+                        split_ok   = lc2.search(tend);
+                    }
+                    if (split_ok)
+                        fail({"C06", "C18"}, "lin.range_not_atomic",
+                             "no sequential order reproduces the results with range lookups atomic, but one exists when each "
+                             "range is taken apart into its single lookups: a range was observed partially applied (" + lc.why + ")");
+                    else
+                        fail({"C06"}, "lin.no_sequential_order",
+                             "no sequential order consistent with real time reproduces the results (" + lc.why + ")");
+                }
                 out.st.bump("lin.search_nodes", lc.nodes);
             }
         }
@@ -852,7 +1074,10 @@ struct CGen
                 f.push_back(2);
         }
         else if (k == OpKind::find_fill)
+        {
             f.push_back(2);
+            f.push_back(5);
+        }
         else
             f.push_back(1);
         if (tr.iter_forms)
@@ -1063,6 +1288,23 @@ struct CGen
             p.stall_from   = (uint32_t)r.below(12);
             p.stall_len    = (uint32_t)r.range(3, 40);
         }
+        // ---- preemptions where code that calibration saw only under the lock runs without it
+        //      (never happens on a tree that locks consistently, so it costs nothing there)
+        if (r.chance(3, 4))
+        {
+            p.susp.push_back((uint32_t)r.below(8));
+            if (r.chance(1, 2))
+                p.susp.push_back((uint32_t)r.below(80));
+            if (r.chance(1, 4))
+                p.susp.push_back((uint32_t)r.below(400));
+        }
+        // ---- basic-block preemptions inside code that holds no lock (1 run in 2)
+        if (r.chance(1, 2))
+        {
+            size_t nf = (size_t)r.range(1, 4);
+            for (size_t i = 0; i < nf; ++i)
+                p.fine.push_back((uint32_t)r.below(r.chance(1, 2) ? 200 : 2500));
+        }
         p.normalize();
         return p;
     }
@@ -1232,12 +1474,63 @@ js::Value conc_genplan(const std::string& world, const std::string& prop, uint64
         return pair_plan(idx, seed).to_json();
     uint64_t rs = mix3(seed, fnv1a(world + "/" + prop), idx);
     CGen     g(rs);
-    Cont     cont = (Cont)(g.r.below((uint64_t)Cont::COUNT));
+    // a property that speaks about some containers only gets its concurrent runs on those
+    GenProfile prof = profile_for(prop, thorough);
+    Cont       cont = g.r.pick(prof.conts);
     return g.random_plan(cont, conc_is_tsan_build(), thorough).to_json();
+}
+
+// Once per process: a fixed single-threaded workload over every thread_safe::yes instantiation
+// tells the scheduler which basic blocks of the container code run under the container's lock.
+static void calibrate_once()
+{
+    static bool done = false;
+    if (done)
+        return;
+    done = true;
+    sched::sim_thread(true);
+    const KeyT kts[] = {KeyT::i, KeyT::s, KeyT::c};
+    const ValT vts[] = {ValT::i, ValT::s, ValT::t};
+    for (int ci = 0; ci < (int)Cont::COUNT; ++ci)
+        for (int combo = 0; combo < 3; ++combo)
+        {
+            if (!combo_supported(kts[combo], vts[combo]))
+                continue;
+            GenProfile prof = profile_for("", false);
+            prof.conts      = {(Cont)ci};
+            for (uint64_t seed = 1; seed <= 8; ++seed)
+            {
+                SeqPlan plan = gen_seq_plan(mix3(0xca11b, (uint64_t)ci * 8 + (uint64_t)combo, seed), prof);
+                plan.cfg.ts  = true;
+                plan.cfg.kt  = kts[combo];
+                plan.cfg.vt  = vts[combo];
+                plan.normalize();
+                uint32_t rd[1] = {(uint32_t)seed};
+                sched::rd_set(rd, 1);
+                int64_t now = plan.clock_start;
+                sched::clock_set(now);
+                auto box = make_box(plan.cfg);
+                if (!box)
+                    continue;
+                sched::calib_begin(box->obj_addr(), (const char*)box->obj_addr() + box->obj_size());
+                for (auto& st : plan.steps)
+                {
+                    now += st.adv_ns;
+                    sched::clock_set(now);
+                    box->exec(st.op);
+                    box->size();
+                    box->empty();
+                    box->capacity();
+                }
+                sched::calib_end();
+            }
+        }
+    sched::sim_thread(false);
 }
 
 ConcOutcome conc_run_plan_json(const js::Value& pj, std::string* trace)
 {
+    calibrate_once();
     ConcRun run;
     run.trace = trace;
     if (!run.plan.from_json(pj))
@@ -1361,6 +1654,24 @@ size_t conc_shrink_json(js::Value& pj, const std::function<bool(const js::Value&
             c.change_points.clear();
             if (try_plan(c))
                 progress = true;
+        }
+        for (size_t i = 0; i < plan.susp.size();)
+        {
+            ConcPlan c = plan;
+            c.susp.erase(c.susp.begin() + (long)i);
+            if (try_plan(c))
+                progress = true;
+            else
+                ++i;
+        }
+        for (size_t i = 0; i < plan.fine.size();)
+        {
+            ConcPlan c = plan;
+            c.fine.erase(c.fine.begin() + (long)i);
+            if (try_plan(c))
+                progress = true;
+            else
+                ++i;
         }
         {
             ConcPlan c = plan;
